@@ -38,7 +38,10 @@ Inductive expr :=
 | EOpaqueStr                                   (* a string built for an error message only *)
 | EIsNone (e : expr)                           (* e is None *)
 | EIntCmp (op : cmp) (a b : expr)              (* a == b, a > b, a <= b, a >= b on integers *)
-| ESub (a b : expr) | EMod (a b : expr).       (* a - b, a % b on integers *)
+| ESub (a b : expr) | EMod (a b : expr)        (* a - b, a % b on integers *)
+| EStarEmpty (star : string)                   (* not iterables   (an *iterables parameter / a tuple of iterators) *)
+| ELen (e : expr)                              (* len(e) of a list *)
+| EAnd (a b : expr).                           (* a and b *)
 
 Inductive stmt :=
 | SSkip
@@ -60,6 +63,22 @@ Inductive stmt :=
 | SForZipOwned (x star : string) (body : stmt) (* async with ScopedIter(zip( *star )) as it: async for x in it: body   (no break/return) *)
 | SSlicePrelude                                (* s = slice( *args ); start, stop, step = s.start or 0, s.stop, s.step or 1 :
                                                   argument normalisation, performed by the caller of the model *)
+| SWhileTrue (body : stmt)                     (* while True: body *)
+| STryStop (body handler : stmt)               (* try: body  except StopAsyncIteration: handler
+                                                  -- catches the exhaustion signalled by the library's own anext calls *)
+| STryFinally (body fin : stmt)                (* try: body  finally: fin *)
+| SCloseAll (star : string)                    (* await _close_all(aiters) *)
+| SStarAlias (x star : string)                 (* x = ( *(aiter(it) for it in star), ) *)
+| SAnext (x it : string)                       (* x = await anext(it) *)
+| SAnextRow (x star : string)                  (* x = [await anext(it) for it in star] *)
+| SListNew (x : string)                        (* x = [] *)
+| SListClear (x : string)                      (* x.clear() *)
+| SAppendAnext (x it : string)                 (* x.append(await anext(it)) *)
+| SIfAnextGot (it : string) (t e : stmt)       (* if await anext(it, marker) is not marker: t else: e *)
+| SForIters (idx it star : string) (from : nat) (start : Z) (body : stmt)
+                                               (* for idx, it in enumerate(star[from:], start): body *)
+| SForRange (n : expr) (body : stmt)           (* for _ in range(n): body *)
+| SDelegate (f star : string)                  (* async for x in f(star): yield x   -- another translated generator of the library *)
 | SBreak
 | SReturn (e : option expr)
 | SUnsupported (what : string).                (* the translator met something outside the fragment *)
@@ -71,19 +90,21 @@ Record env := mkEnv {
   e_vars : list (string * option val);      (* None: bound to the function's "not given" marker *)
   e_fns : list (string * callee);
   e_its : list (string * nat);      (* iterable / iterator names -> source index *)
-  e_star : list (string * list nat) (* a *iterables parameter -> the source indices *)
+  e_star : list (string * list nat); (* a *iterables parameter -> the source indices *)
+  e_lib : list (string * (list nat -> (val -> M unit) -> M unit))
+                                    (* the library's own generators that may be delegated to: name -> denotation *)
 }.
 Fixpoint lookup {A} (x : string) (l : list (string * A)) : option A :=
   match l with
   | [] => None
   | (y, a) :: r => if String.eqb x y then Some a else lookup x r
   end.
-Definition set_var (en : env) (x : string) (v : val) := mkEnv ((x, Some v) :: e_vars en) (e_fns en) (e_its en) (e_star en).
-Definition set_marker (en : env) (x : string) := mkEnv ((x, None) :: e_vars en) (e_fns en) (e_its en) (e_star en).
-Definition set_fn (en : env) (f : string) (c : callee) := mkEnv (e_vars en) ((f, c) :: e_fns en) (e_its en) (e_star en).
-Definition set_it (en : env) (x : string) (i : nat) := mkEnv (e_vars en) (e_fns en) ((x, i) :: e_its en) (e_star en).
+Definition set_var (en : env) (x : string) (v : val) := mkEnv ((x, Some v) :: e_vars en) (e_fns en) (e_its en) (e_star en) (e_lib en).
+Definition set_marker (en : env) (x : string) := mkEnv ((x, None) :: e_vars en) (e_fns en) (e_its en) (e_star en) (e_lib en).
+Definition set_fn (en : env) (f : string) (c : callee) := mkEnv (e_vars en) ((f, c) :: e_fns en) (e_its en) (e_star en) (e_lib en).
+Definition set_it (en : env) (x : string) (i : nat) := mkEnv (e_vars en) (e_fns en) ((x, i) :: e_its en) (e_star en) (e_lib en).
 
-Definition set_star (en : env) (x : string) (l : list nat) := mkEnv (e_vars en) (e_fns en) (e_its en) ((x, l) :: e_star en).
+Definition set_star (en : env) (x : string) (l : list nat) := mkEnv (e_vars en) (e_fns en) (e_its en) ((x, l) :: e_star en) (e_lib en).
 Inductive arg := AVal (v : val) | AOpt (o : option val) | AFn (c : callee) | AIter (i : nat) | AIters (l : list nat).
 Fixpoint bind_args (ps : list string) (args : list arg) (en : env) : env :=
   match ps, args with
@@ -97,7 +118,8 @@ Fixpoint bind_args (ps : list string) (args : list arg) (en : env) : env :=
                           end)
   | _, _ => en
   end.
-Definition empty_env := mkEnv [] [] [] [].
+Definition env_with (lib : list (string * (list nat -> (val -> M unit) -> M unit))) := mkEnv [] [] [] [] lib.
+Definition empty_env := env_with [].
 
 (* ---------- expressions ---------- *)
 Definition need {A} (o : option A) : M A :=
@@ -158,10 +180,52 @@ Fixpoint eval (en : env) (e : expr) : M val :=
                 match x, y with VInt p, VInt q => ret (VInt (p - q)) | _, _ => raise XTypeError end
   | EMod a b => x <- eval en a ;; y <- eval en b ;;
                 match x, y with VInt p, VInt q => ret (VInt (Z.modulo p q)) | _, _ => raise XTypeError end
+  | EStarEmpty star => ss <- need (lookup star (e_star en)) ;; ret (VBool (match ss with [] => true | _ => false end))
+  | ELen a => v <- eval en a ;;
+              match v with VList l | VTup l => ret (VInt (Z.of_nat (List.length l))) | _ => raise XTypeError end
+  | EAnd a b => x <- eval en a ;; if truthy x then eval en b else ret x
   end.
 
 (* ---------- statements ---------- *)
-Inductive sig := Normal | Brk | Ret (v : val).
+(* Exc e: an exception raised by a library-level construct (exhaustion found by the library's own anext), carrying the
+   environment of the moment; a fault injected at a use is an Exn outcome of the monad and is never caught *)
+Inductive sig := Normal | Brk | Ret (v : val) | Exc (e : exn).
+
+Fixpoint while_fuel (fuel : nat) (body : env -> M (env * sig)) (en : env) : M (env * sig) :=
+  match fuel with
+  | 0 => out_of_fuel
+  | S f => r <- body en ;;
+           match snd r with
+           | Normal => while_fuel f body (fst r)
+           | Brk => ret (fst r, Normal)
+           | _ => ret r
+           end
+  end.
+Fixpoint for_iters (l : list nat) (k : Z) (idx it : string) (body : env -> M (env * sig)) (en : env) : M (env * sig) :=
+  match l with
+  | [] => ret (en, Normal)
+  | i :: r => rr <- body (set_it (set_var en idx (VInt k)) it i) ;;
+              match snd rr with
+              | Normal => for_iters r (k + 1)%Z idx it body (fst rr)
+              | Brk => ret (fst rr, Normal)
+              | _ => ret rr
+              end
+  end.
+Fixpoint for_range (n : nat) (body : env -> M (env * sig)) (en : env) : M (env * sig) :=
+  match n with
+  | 0 => ret (en, Normal)
+  | S m => rr <- body en ;;
+           match snd rr with
+           | Normal => for_range m body (fst rr)
+           | Brk => ret (fst rr, Normal)
+           | _ => ret rr
+           end
+  end.
+Fixpoint anext_row (l : list nat) (acc : list val) : M (option (list val)) :=
+  match l with
+  | [] => ret (Some acc)
+  | i :: r => o <- pull i ;; match o with None => ret None | Some v => anext_row r (acc ++ [v]) end
+  end.
 
 Fixpoint exec (s : stmt) (en : env) (yield : val -> M unit) : M (env * sig) :=
   match s with
@@ -190,7 +254,7 @@ Fixpoint exec (s : stmt) (en : env) (yield : val -> M unit) : M (env * sig) :=
       match snd (fst r) with
       | Normal => exec orelse (fst (fst r)) yield
       | Brk => ret (fst (fst r), Normal)
-      | Ret v => ret (fst r)
+      | _ => ret (fst r)
       end
   | SAnextOr x it handler =>
       i <- need (lookup it (e_its en)) ;;
@@ -221,7 +285,7 @@ Fixpoint exec (s : stmt) (en : env) (yield : val -> M unit) : M (env * sig) :=
           match snd (fst (fst r)) with
           | Normal => exec orelse (fst (fst (fst r))) yield
           | Brk => ret (fst (fst (fst r)), Normal)
-          | Ret v => ret (fst (fst r))
+          | _ => ret (fst (fst r))
           end
       | _ => raise XTypeError
       end
@@ -240,6 +304,62 @@ Fixpoint exec (s : stmt) (en : env) (yield : val -> M unit) : M (env * sig) :=
         r <- exec body (set_var en x t) yield ;;
         match snd r with Normal => ret tt | _ => raise XRuntimeError end) ;;; ret (en, Normal)
   | SSlicePrelude => ret (en, Normal)
+  | SWhileTrue body => with_fuel (fun f => while_fuel f (fun e => exec body e yield) en)
+  | STryStop body handler =>
+      r <- exec body en yield ;;
+      match snd r with
+      | Exc XStopAsync => exec handler (fst r) yield
+      | _ => ret r
+      end
+  | STryFinally body fin => finally (exec body en yield) (exec fin en yield ;;; ret tt)
+  | SCloseAll star => ss <- need (lookup star (e_star en)) ;; close_all ss ;;; ret (en, Normal)
+  | SStarAlias x star => ss <- need (lookup star (e_star en)) ;; ret (set_star en x ss, Normal)
+  | SAnext x it =>
+      i <- need (lookup it (e_its en)) ;;
+      o <- pull i ;;
+      match o with
+      | Some v => ret (set_var en x v, Normal)
+      | None => ret (en, Exc XStopAsync)
+      end
+  | SAnextRow x star =>
+      ss <- need (lookup star (e_star en)) ;;
+      o <- anext_row ss [] ;;
+      match o with
+      | Some xs => ret (set_var en x (VList xs), Normal)
+      | None => ret (en, Exc XStopAsync)
+      end
+  | SListNew x => ret (set_var en x (VList []), Normal)
+  | SListClear x => o <- need (lookup x (e_vars en)) ;; v <- need o ;;
+                    match v with VList _ => ret (set_var en x (VList []), Normal) | _ => raise XAttributeError end
+  | SAppendAnext x it =>
+      i <- need (lookup it (e_its en)) ;;
+      o0 <- need (lookup x (e_vars en)) ;; l <- need o0 ;;
+      o <- pull i ;;
+      match o, l with
+      | Some v, VList xs => ret (set_var en x (VList (xs ++ [v])), Normal)
+      | Some _, _ => raise XAttributeError
+      | None, _ => ret (en, Exc XStopAsync)
+      end
+  | SIfAnextGot it t e =>
+      i <- need (lookup it (e_its en)) ;;
+      o <- pull i ;;
+      match o with
+      | Some _ => exec t en yield
+      | None => exec e en yield
+      end
+  | SForIters idx it star from start body =>
+      ss <- need (lookup star (e_star en)) ;;
+      for_iters (skipn from ss) start idx it (fun e => exec body e yield) en
+  | SForRange n body =>
+      v <- eval en n ;;
+      match v with
+      | VInt z => for_range (Z.to_nat z) (fun e => exec body e yield) en
+      | _ => raise XTypeError
+      end
+  | SDelegate f star =>
+      den <- need (lookup f (e_lib en)) ;;
+      ss <- need (lookup star (e_star en)) ;;
+      den ss yield ;;; ret (en, Normal)
   | SBreak => ret (en, Brk)
   | SReturn None => ret (en, Ret VNone)
   | SReturn (Some e) => v <- eval en e ;; ret (en, Ret v)
@@ -247,17 +367,20 @@ Fixpoint exec (s : stmt) (en : env) (yield : val -> M unit) : M (env * sig) :=
   end.
 
 (* an async generator function: what the consumer sees is the yields *)
-Definition run_genfn (f : fdef) (args : list arg) : gen := fun yield =>
-  exec (f_body f) (bind_args (f_params f) args empty_env) yield ;;; ret tt.
+Definition run_genfn_in (lib : list (string * (list nat -> (val -> M unit) -> M unit))) (f : fdef) (args : list arg) : gen := fun yield =>
+  r <- exec (f_body f) (bind_args (f_params f) args (env_with lib)) yield ;;
+  match snd r with Exc e => raise e | _ => ret tt end.
+Definition run_genfn (f : fdef) (args : list arg) : gen := run_genfn_in [] f args.
 (* a coroutine function: the awaited result *)
 Definition run_corofn (f : fdef) (args : list arg) : M val :=
   r <- exec (f_body f) (bind_args (f_params f) args empty_env) (fun _ => raise XRuntimeError) ;;
-  ret (match snd r with Ret v => v | _ => VNone end).
+  match snd r with Ret v => ret v | Exc e => raise e | _ => ret VNone end.
 
 Fixpoint supported (s : stmt) : bool :=
   match s with
   | SUnsupported _ => false
-  | SSeq a b | SIf _ a b | SFor _ _ a b | SForEnum _ _ _ _ a b => supported a && supported b
+  | SSeq a b | SIf _ a b | SFor _ _ a b | SForEnum _ _ _ _ a b | STryStop a b | STryFinally a b | SIfAnextGot _ a b => supported a && supported b
+  | SWhileTrue a | SForIters _ _ _ _ _ a | SForRange _ a => supported a
   | SForZipBorrowed _ _ _ _ a | SForZipOwned _ _ a => supported a
   | SWith _ _ a | SAnextOr _ _ a => supported a
   | _ => true
